@@ -95,3 +95,28 @@ claim("C17",
       "Behaviour 'with a clear margin' on constructed witnesses is an evaluation of the predicates and is not decided; invariance is in exact arithmetic.",
       "abstract interpretation with callee inlining: comparison-set extraction, clause-set value numbering, affine-unit homogeneity analysis",
       "DESIGN.md §4 C17")
+
+# ---- additions after seeding rounds 2-4 (appended to the texts above)
+_EXTRA = {
+    "C01": " Also decided: the same position rules over every pattern/movement function and the Amorph wrapper; the collapse walk rules of C03 (interval, conservation, invariant, one epoch); a candle's derived geometry is never cached on the candle; indicator and manager spell a timeframe identically (registry key).",
+    "C03": " Also decided: the input converters hand every OHLCV slot over unchanged; every append reaches every manager; Candle.merge is reachable from the walk only.",
+    "C04": " Registering a helper only binds it (its configuration, incl. rounding, stays what _initialise passed); indicators are registered in the given order; removing an indicator purges its readings before it is dropped.",
+    "C05": " Registering a helper only binds it (its configuration, incl. rounding, stays what _initialise passed); indicators are registered in the given order; removing an indicator purges its readings before it is dropped.",
+    "C06": " Registering a helper only binds it (its configuration, incl. rounding, stays what _initialise passed); indicators are registered in the given order; removing an indicator purges its readings before it is dropped.",
+    "C07": " The resume scan is decided semantically (prefix model, closed-form scan, Fourier-Motzkin entailment): every case resumes at m or m-1 and the scan runs newest-first; an iteration whose trip count cannot be expressed in the configuration is a finding.",
+    "C08": " Also: indicator and manager spell a timeframe identically (R-REGKEY), the registry keeps the given order and is written only while indicators are bound, the manager purges exact names only.",
+    "C09": " Also: no division whose numerator and denominator are both quotients by a geometrically decaying unrounded series (inf/inf = NaN, R-NAN); the helper summaries are checked against the helpers' bodies; bucket helpers keep the timestamp's own tzinfo in the epoch.",
+    "C10": " Also: the input converters fill each slot from the key/position of the same name (the candle axiom the sign analysis assumes is preserved); helper rounding is not overridden by the parent.",
+    "C11": " The conversion resume scan is decided semantically: with m converted candles every return case entails result == m (delegations to shared helpers inlined); the conversion tag is cleared only in conversion / raw_copy / merge.",
+    "C12": " Also: a new timeframe manager is seeded from raw copies of the base candles (never from another manager's filled candles).",
+    "C13": " Also: constructors/initialisers do not mutate caller-supplied containers; only __init__/_validate_indicators write the manager registry; Indicator.purge reaches the manager on every path and keeps no state (no mutable default); an operation given a name never falls back to all indicators; no prefix/substring matching on names.",
+    "C14": " Also: merge unconditionally resets a bucket's readings; Indicator.purge has no early-return path; selection by name never falls back to all indicators; registry order and writers as in C08.",
+    "C15": " Also: the lifespan is stored as configured and never reduced to a timedelta component (.seconds); gap filling does not depend on the lifespan.",
+    "C17": " The positions of every read (previous candle is a real earlier candle, windows end at the evaluated candle) are proved with the C16 rules.",
+    "C18": " now(tz) with a possibly-None tz (the tzinfo of a naive timestamp) counts as a local-clock read.",
+    "C20": " Also: the sweep moves the active index onto every visited candle (default position after calculate() is the newest candle), every part of a name passes the '.'->',' sanitiser, Hexital resolves names exactly (no prefix matching).",
+}
+for _k, _v in _EXTRA.items():
+    CLAIMED[_k]["text"] = CLAIMED[_k]["text"] + _v
+CLAIMED["C07"]["technique"] = "loop-bound analysis + call-graph reachability (R-BOUND/R-SPAN/R-HISTORY) + symbolic summary of the resume scan with polyhedra entailment"
+CLAIMED["C11"]["technique"] = "value numbering of the post-state + typestate/ordering rules + symbolic summary of the resume scan with polyhedra entailment (result == m)"
